@@ -177,3 +177,118 @@ Example C01_ex_rejected :
   run true 64 [MarkSet 1 0] [1; 2] = RAbort /\
   run true 64 [Free; Flush] [1; 2] = RAbort.
 Proof. vm_compute. repeat split. Qed.
+
+(* ==== BEGIN rtbuf-from-source (unit rtbuf, Gen/RtBuf_gen.v) ============================================
+   The buffer functions of src/rt/ovni.c are regenerated on every run (translate/units/rtbuf.py): flush_evbuf,
+   ovni_clock_now, ovni_ev_set_clock/get_clock/set_mcv, ovni_payload_add, add_flush_events, ovni_ev_add,
+   ovni_ev_add_jumbo, ovni_flush, ovni_ev_emit, ovni_ev_jumbo_emit, ovni_mark_push/pop/set, over the prelude
+   Rt/RtBufPre.v (state: ready, evlen, the flat bytes of evbuf, the write() calls, the clock input, the
+   `struct ovni_ev` objects; primitives: write_evbuf = "write all or die", memcpy with bounds, clock_monotonic_now,
+   die, `struct ovni_ev x = {0}`).  `api_call o` (Rt/RtBufApiDefs.v) is the caller's program for one `op` over the
+   generated functions; `Rep cap g s` relates the generated code's state to the model's: same ready flag, same write()
+   calls, same remaining clock input, and while ready the same evlen and the same bytes in evbuf[0..evlen).
+   Proofs: Proofs/RtBufGenProofs.v.  Capacities: every 64 <= cap < 2^63 (OVNI_MAX_EV_BUF is a long long). *)
+From OV Require Import Rt.RtBufPre Rt.RtBufApiDefs Proofs.RtBufGenProofs.
+
+(* one API call of the generated code = RtBufDefs.step (fx = true: the code after 417af60) on the same op: both
+   complete in related states, or both die, or both exhaust the clock input / the fuel; never an invalid memory
+   access (E_TRAP) *)
+Theorem C01_buffer_ops_from_source : forall cap o g s log,
+  64 <= cap < 2 ^ 63 -> op_cb o = true -> Rep cap g s ->
+  match api_call o (env_of cap) g, step true cap o (s, log) with
+  | Ok (_, g'), ROk (s', _) => Rep cap g' s'
+  | Err e, RAbort => e = E_DIE
+  | Err e, RNoClock => e = E_NOCLOCK
+  | Err e, RNoFuel => e = E_NOFUEL
+  | _, _ => False
+  end.
+Proof. exact buffer_ops_from_source. Qed.
+Print Assumptions C01_buffer_ops_from_source.
+
+(* what Rep means for the observable bytes *)
+Theorem C01_rep_same_bytes : forall cap g s, Rep cap g s ->
+  g_disk_bytes g = disk_bytes s /\ g_clk g = clk s /\ (g_ready g <> 0 <-> ready s = true) /\
+  (ready s = true -> g_evlen g = evlen s /\ g_buf_bytes g = buf_bytes s).
+Proof. exact rep_same_bytes. Qed.
+Print Assumptions C01_rep_same_bytes.
+
+(* whole call sequences from the state ovni_thread_init leaves *)
+Theorem C01_runs_from_source : forall cap ops clock,
+  64 <= cap < 2 ^ 63 -> forallb op_cb ops = true ->
+  match api_run ops (env_of cap) (g_init clock), run true cap ops clock with
+  | Ok (_, g'), ROk (s', _) => Rep cap g' s'
+  | Err e, RAbort => e = E_DIE
+  | Err e, RNoClock => e = E_NOCLOCK
+  | Err e, RNoFuel => e = E_NOFUEL
+  | _, _ => False
+  end.
+Proof. exact runs_from_source. Qed.
+Print Assumptions C01_runs_from_source.
+
+(* hence C01_fidelity is a statement about the generated code *)
+Theorem C01_generated_code_fidelity : forall cap ops clock g',
+  64 <= cap < 2 ^ 63 -> forallb op_cb ops = true -> existsb is_free ops = false -> clock_u64b clock = true ->
+  api_run ops (env_of cap) (g_init clock) = Ok (tt, g') ->
+  exists s log, run true cap ops clock = ROk (s, log) /\ fidelity log (g_disk_bytes g' ++ g_buf_bytes g').
+Proof. exact generated_code_fidelity. Qed.
+Print Assumptions C01_generated_code_fidelity.
+
+(* the generated code never needs more fuel than FUEL and never makes an invalid memory access *)
+Theorem C01_generated_code_failures : forall cap ops clock e,
+  64 <= cap < 2 ^ 63 -> forallb op_cb ops = true ->
+  api_run ops (env_of cap) (g_init clock) = Err e -> e = E_DIE \/ e = E_NOCLOCK.
+Proof. exact generated_code_failures. Qed.
+Print Assumptions C01_generated_code_failures.
+
+(* function by function (the statements the mutations break): *)
+Theorem C01_ev_add_from_source : forall cap fuel p g s pl ev,
+  64 <= cap < 2 ^ 63 -> Rep cap g s -> has_ev g p ev -> built pl ev ->
+  same_outcome (RE cap g) (G.ovni_ev_add fuel p (env_of cap) g) (ovni_ev_add true cap fuel ev s).
+Proof. intros cap fuel p g s pl ev H. exact (ev_add_sim cap H fuel p g s pl ev). Qed.
+Print Assumptions C01_ev_add_from_source.
+
+Theorem C01_add_jumbo_from_source : forall cap fuel p g s ev data,
+  64 <= cap < 2 ^ 63 -> Rep cap g s -> has_ev g p ev -> built [] ev -> zlength data < 2 ^ 32 ->
+  same_outcome (Rep cap) (G.ovni_ev_add_jumbo fuel p (P_data data) (zlength data) (env_of cap) g)
+               (ovni_ev_add_jumbo true cap fuel ev data s).
+Proof. intros cap fuel p g s ev data H. exact (add_jumbo_sim cap H fuel p g s ev data). Qed.
+Print Assumptions C01_add_jumbo_from_source.
+
+Theorem C01_flush_from_source : forall cap fuel g s,
+  64 <= cap < 2 ^ 63 -> Rep cap g s ->
+  same_outcome (Rep cap) (G.ovni_flush fuel (env_of cap) g) (ovni_flush true cap fuel s).
+Proof. intros cap fuel g s H. exact (flush_sim cap H fuel g s). Qed.
+Print Assumptions C01_flush_from_source.
+
+Theorem C01_payload_add_from_source : forall cap g p pl ev bs,
+  has_ev g p ev -> built pl ev -> zlength bs < 2 ^ 31 ->
+  G.ovni_payload_add p (P_data bs) (zlength bs) (env_of cap) g =
+  match CodecDefs.ovni_payload_add ev bs with Die => Err E_DIE | Ret ev' => Ok (tt, gset g p ev') end.
+Proof. exact payload_add_run. Qed.
+Print Assumptions C01_payload_add_from_source.
+
+(* non-vacuity: a program like the example of this file on the generated code with a 128-byte buffer: a 100-byte jumbo
+   overflows it (forced flushes, 5 writes, 3 marker pairs); a jumbo of 16 + 112 bytes does not fit at all: die *)
+Definition ex_gen_ops : list op :=
+  [Emit 79 72 120 [[1; 2; 3; 4]; [5; 6; 7; 8]; [9; 10; 11; 12; 13; 14; 15; 16]];
+   MarkPush 3 (-2); Emit 86 89 99 []; JumboEmit 79 66 46 (repeat 47 100);
+   Emit 1 2 3 [[255; 0]]; MarkSet 7 9223372036854775807; JumboEmit 79 85 106 [];
+   JumboEmit 0 255 7 (repeat 9 31); MarkPop 3 (-2); Emit 79 72 101 []; Flush].
+
+Example C01_ex_generated_hypotheses : forallb op_cb ex_gen_ops = true /\ forallb op_cb ex_ops = true.
+Proof. vm_compute. repeat split. Qed.
+
+Example C01_ex_generated_run :
+  match api_run ex_gen_ops (env_of 128) (g_init ex_clock), run true 128 ex_gen_ops ex_clock with
+  | Ok (_, g'), ROk (s', log) =>
+    g_disk_bytes g' = disk_bytes s' /\ g_buf_bytes g' = buf_bytes s' /\ g_clk g' = clk s' /\
+    length (g_wr g') = 5%nat /\ length log = 10%nat /\ count_markers (g_disk_bytes g' ++ g_buf_bytes g') = 6%nat
+  | _, _ => False
+  end.
+Proof. vm_compute. repeat split. Qed.
+
+Example C01_ex_generated_too_large_jumbo_dies :
+  api_run (ex_gen_ops ++ [JumboEmit 79 66 46 (repeat 47 112)]) (env_of 128) (g_init ex_clock) = Err E_DIE /\
+  run true 128 (ex_gen_ops ++ [JumboEmit 79 66 46 (repeat 47 112)]) ex_clock = RAbort.
+Proof. vm_compute. repeat split. Qed.
+(* ==== END rtbuf-from-source ==== *)
